@@ -401,9 +401,14 @@ def r7(ctx, F):
     PS = put_arg_slots(F)
     if PS is None:
         ctx.missing('C03.R7', 'HubClient::put parameters (path: &str, expected: Option<[u8; 32]>, local: &Path, hash: [u8; 32])')
+    loops_ = fl.cfg.loops()
     for n_, (pb, pt) in enumerate(sorted(puts, key=lambda x: x[0])):
         eo = fl.origins(pt['args'][PS['expected']])
         ok = False
+        nb_ = next((n for n, _ in fl.calls_to('std::iter::Iterator::next') if any(pb in bl and n in bl for bl in loops_.values())), None)
+        if nb_ is not None and prepared_list(fl, nb_) and any(o.kind == 'call' and o.key == 'std::iter::Iterator::next' and o.bb == nb_ for o in eo):
+            ctx.undecided('C03.R7', 'hub_sync sends from a list prepared in an earlier pass: `expected` is read out of a stored record, where it came from is not decided')
+            continue
         for o in eo:
             if o.kind == 'call' and o.key.endswith('::get'):
                 m = call_arg_origins(fl, o.bb, 0)
